@@ -1,8 +1,142 @@
 import MidnightZK.Model.Common
-/-! Line-protocol handler of property C08 (stub: answers `unimplemented`). -/
+import MidnightZK.Model.C08.PublicInput
+import MidnightZK.Model.C08.Expose
+/-! Line-protocol handler of property C08. -/
 namespace MidnightZK.C08.Driver
+open MidnightZK MidnightZK.C08
 
-def answer (_line : String) : String := "unimplemented"
+def fmtOpt (l : Option (List Nat)) : String :=
+  match l with
+  | some l => fmtHexList l
+  | none => "panic"
+
+/-- `id` or `0x..:0x..`. -/
+def parsePoint (s : String) : Option (Option (Nat × Nat)) :=
+  if s = "id" then some none else
+  match s.splitOn ":" with
+  | [x, y] => do let x ← parseNat? x; let y ← parseNat? y; pure (some (x, y))
+  | _ => none
+
+/-- `tag=value`. -/
+def parseVal (tok : String) : Option Val :=
+  match tok.splitOn "=" with
+  | [tag, v] =>
+    match tag.splitOn ":" with
+    | ["bit"] => if v = "0" then some (.bit false) else if v = "1" then some (.bit true) else none
+    | ["byte"] => do let b ← parseNat? v; if b < 256 then pure (.byte b) else none
+    | ["native"] => (parseNat? v).map .native
+    | ["ff", name] => do let x ← parseNat? v; let _ ← paramsOf name; pure (.ff name x)
+    | ["fpoint", c] => do let p ← parsePoint v; let _ ← curveParams c; pure (.fpoint c p)
+    | ["jpoint"] =>
+      match v.splitOn ":" with
+      | [x, y] => do let x ← parseNat? x; let y ← parseNat? y; pure (.jpoint x y)
+      | _ => none
+    | ["jscalar"] => (parseNat? v).map .jscalar
+    | ["big", nb] => do let nb ← nb.toNat?; let x ← parseNat? v; pure (.big nb x)
+    | ["bytes"] => do let bs ← parseNatList? v; if bs.all (· < 256) then pure (.bytes bs) else none
+    | _ => none
+  | _ => none
+
+def parsePath (s : String) : Option Path :=
+  if s = "c" then some .constrain
+  else if s = "a" then some .assign
+  else if s = "m" then some .committed
+  else if s = "f" then some .fixed
+  else if s.startsWith "d" then ((s.drop 1).toString.toNat?).map .derived
+  else none
+
+/-- `path:tag=value` (the tag may itself contain `:`). -/
+def parseStep (tok : String) : Option (Path × Val) :=
+  match tok.splitOn ":" with
+  | p :: rest => do
+    let p ← parsePath p
+    let v ← parseVal (":".intercalate rest)
+    pure (p, v)
+  | _ => none
+
+def parseSteps (ws : List String) : Option (List (Path × Val)) :=
+  if ws = ["-"] then some [] else ws.mapM parseStep
+
+def fmtBinds (b : List (Nat × Nat)) : String :=
+  let contiguous := (b.map (·.1)) == List.range b.length
+  s!"{b.length}{if contiguous then "" else "!gap"}:{fmtHexList (b.map (·.2))}"
+
+def modulusOf (name : String) : Option Nat :=
+  if name = "native" then some q
+  else if name = "jubjub_scalar" then some Gen.jubjubScalarModulus
+  else (fieldNames.find? (fun e => e.1 == name)).map (·.2.2)
+
+def answerExpose (steps : List (Path × Val)) : String :=
+  match exposeAll {} steps, formatInstance steps with
+  | some c, some (plain, com) =>
+    let sat := holdsB c.binds plain && holdsB c.comBinds com
+    let rej := rejectedEdits q c.binds plain + rejectedEdits q c.comBinds com
+    s!"plain={fmtBinds c.binds} com={fmtBinds c.comBinds} sat={fmtBool sat} rej={rej}/{plain.length + com.length}"
+  | _, _ => "panic"
+
+def answerNbpi (steps : List (Path × Val)) : String :=
+  match exposeAll {} steps, formatInstance steps with
+  | some c, some (plain, com) =>
+    s!"nb={c.nbPublicInputs} fmt={plain.length} com={c.comOffset} fmtcom={com.length}"
+  | _, _ => "panic"
+
+/-- `P1;P2;…` or `-`. -/
+def parsePoints (s : String) : Option (List (Option (Nat × Nat))) :=
+  if s = "-" then some [] else (s.splitOn ";").mapM parsePoint
+
+/-- `points/scalars/fixed-scalars`. -/
+def parseMsm (s : String) : Option Msm :=
+  match s.splitOn "/" with
+  | [ps, sc, fx] => do
+    let ps ← parsePoints ps
+    let sc ← parseNatList? sc
+    let fx ← parseNatList? fx
+    pure { bases := ps, scalars := sc, fixed := fx }
+  | _ => none
+
+def answer (line : String) : String :=
+  match words line with
+  | ["mod", name] =>
+    match modulusOf name with
+    | some m => toHex m
+    | none => "bad-op"
+  | ["params", name] =>
+    match paramsOf name with
+    | some P => s!"{P.w} {P.n}"
+    | none => "bad-op"
+  | ["enc", tok] =>
+    match parseVal tok with
+    | some v => fmtOpt (encode v)
+    | none => "bad-op"
+  | "expose" :: ws =>
+    match parseSteps ws with
+    | some steps => answerExpose steps
+    | none => "bad-op"
+  | "nbpi" :: ws =>
+    match parseSteps ws with
+    | some steps => answerNbpi steps
+    | none => "bad-op"
+  | ["encvk", r] =>
+    match parseNat? r with
+    | some r => fmtHexList (encVk q r)
+    | none => "bad-op"
+  | ["encmsm", c, m] =>
+    match curveParams c, parseMsm m with
+    | some P, some m => fmtHexList (encMsm q P m)
+    | _, _ => "bad-op"
+  | ["encmsmc", c, m] =>
+    match curveParams c, parseMsm m with
+    | some P, some m => let r := encMsmCommitted q P m; s!"{fmtHexList r.1} | {fmtHexList r.2}"
+    | _, _ => "bad-op"
+  | ["encacc", c, l, r] =>
+    match curveParams c, parseMsm l, parseMsm r with
+    | some P, some l, some r => fmtHexList (encAcc q P l r)
+    | _, _, _ => "bad-op"
+  | ["encaccc", c, l, r] =>
+    match curveParams c, parseMsm l, parseMsm r with
+    | some P, some l, some r => let e := encAccCommitted q P l r; s!"{fmtHexList e.1} | {fmtHexList e.2}"
+    | _, _, _ => "bad-op"
+  | _ => "bad-op"
 
 end MidnightZK.C08.Driver
 
